@@ -15,6 +15,8 @@ UNIT = dict(
         "Retry::clone@Clone": dict(),
         "Retry::poll_ready@Service": dict(),
         "Retry::call@Service": dict(rules=[
+            # the loop invariant below speaks about the local that holds the instance observed ready
+            ("R22", r"let\s+mut\s+(\w+)\s*=\s*std::mem::replace\(\s*&mut\s+self\.inner\s*,", "service"),
             ("R4",), ("R3",),
             ("sub", "R9-paths", r"tokio::time::sleep", "sleep", 1),
             ("sub", "literal-types", r"let mut attempt = 0;", "let mut attempt: usize = 0;", 1),
